@@ -484,13 +484,16 @@ def reshape(node: ir.Node, op, state: OptimizerState) -> ReturnValue:
     input_shape = input.shape
     shape_value = state.get_shape_value(shape)
 
-    if shape_value is None or input_shape is None:
-        return _propagate_shape_value(node, op, state)
-
-    # No need to check for special values like -1, 0, etc. here
-    if _same_shape(input_shape, shape_value):
+    # A symbolic shape value describes a 1-D tensor: it carries over to the output only
+    # if the target shape is known to be 1-D as well.
+    if shape_value is None:
+        return None
+    if input_shape is not None and _same_shape(input_shape, shape_value):
+        # No need to check for special values like -1, 0, etc. here
         return op.Identity(input)
-    return _propagate_shape_value(node, op, state)
+    if len(shape_value) == 1:
+        return _propagate_shape_value(node, op, state)
+    return None
 
 
 @register("Squeeze")
